@@ -262,7 +262,8 @@ PROPS["C13"] = dict(
                "Tie: random windows on generated positions/histories, impl vs model exact (nodes, score, PV), impl vs Clip of the exhaustive reference.",
     level_note="Trusted: Lean kernel; Model.Search tied exactly (node counts and PV tie-breaks included); Spec.Search exhaustive negamax with full-history draw rules as the "
                "implementation-side oracle. The theorems are about table-free, unhalted searches (tables: C11, halts: C12). The quiescence model and its reference carry a fuel argument the Go code "
-               "does not have; enough_fuel removes it wherever every capture line ends within the fuel (QDone).",
+               "does not have; enough_fuel removes it wherever every capture line ends within the fuel (QDone), and chess_enough_fuel / chess_V_fuel_irrelevant prove that for the captures-only "
+               "exploration on every board of the chess game fuel 64 always suffices (each capture removes a man). EvalOk is proved for the chess game (chess_evalOk) and every theorem is instantiated on it.",
     technique="Lean 4 proof: loop invariant of the fail-hard move loop in rank space, graded validity of mate distances, permutation invariance of the reference maximum; differential windows",
     rule="positions with histories (corpus, mate endgames, synthetic) x depth 0-4 x 4 configurations x 5 windows (bounds -inf, M+-k, heuristic, +inf); non-trivial = distinct script",
     partial=["board-dependent explorations (TUROCHAMP considerable moves, BERNSTEIN plausible table) not covered by the theorems"],
@@ -275,7 +276,8 @@ PROPS["C03"] = dict(
     timeout=dict(quick=900, thorough=6000),
     level_text="Lean theorems (every Game, every MOVE-DETERMINED exploration (priority and filter are functions of the move: full, no-under-promotion, captures-only), every leaf "
                "evaluation, every depth with leafGrade + d <= 127): the full-window search returns exactly the negamax value V (exact, search_exact), the PV is a path of legal explored "
-               "moves no longer than the depth, and EVERY PV move attains the value of the position it is played in (pv, pv_principal). V is negamax over the model board's own "
+               "moves no longer than the depth, EVERY PV move attains the value of the position it is played in (pv, pv_principal), and the PV is NON-EMPTY whenever an explored legal move exists and the value is not 'lost' "
+               "(pv_nonempty, search_pv_nonempty: no table hypotheses); EvalOk holds for the chess game and every theorem is instantiated on materialGame. V is negamax over the model board's own "
                "push / draw / check (their chess meaning is C01, C02, C05; the composition into one statement against Spec.Search is not carried out: Spec.Search is the stream's oracle). "
                "The board-dependent explorations of TUROCHAMP (considerable moves) and BERNSTEIN (plausible table) are outside these theorems: modelled in C20, searched only by the streams. "
                "Board hand-back is NOT a theorem (the search model is pure: it uses the child value and keeps the parent): C08.pushes_pops says balanced push/pop pairs restore the board, "
@@ -298,16 +300,21 @@ PROPS["C11"] = dict(
     modules=["Morlock.Props.C11", "Morlock.Props.C13"],
     streams=["c11", "c11deep"],
     timeout=dict(quick=900, thorough=6000),
-    level_text="Lean theorems (full; every Game, exploration, leaf evaluation, table size and min-depth filter; hypotheses of the property explicit: HashOK = positions with equal hash "
-               "have equal values ('barring collisions'), RootFree/NoDraw = no history draw inside the tree): a sound table (every exact entry is the true value of that position at "
+    level_text="Lean theorems (every Game, move-determined exploration, leaf evaluation, table size and min-depth filter). The hypotheses of the property are explicit and RELATIVE TO THE REGION "
+               "THE SEARCHES VISIT (Tree g ex root d = what is reachable from the root by at most d explored pushes; Trees = the union for a sequence of searches): HashOKOn = two positions of the "
+               "region with equal hash have equal reference values at every remaining depth ('barring collisions' AND 'position-determined': it fails if the same position occurs in the region with "
+               "two histories that differ in drawn descendants), RootFreeOn / NoDrawOn = no history draw inside the region. (The earlier global forms quantified over every value of the state type "
+               "and were unsatisfiable on the chess game; they remain as corollaries.) Under them a sound table (every exact entry is the true value of that position at "
                "that depth) stays sound through every search, for every window (sound_preserved, stored_exact); at the full window the result equals the table-free negamax value "
                "(transparent) and the PV is principal and non-empty at the root (pv_first_best); by list induction any SEQUENCE of searches over varying roots and depths sharing "
-               "the table returns the true value each time (sequence). Tie: iterative deepening + repeated + successive-position searches with tables 32 B - 1 MB, impl vs model "
+               "the table returns the true value each time (sequence_on, sequence_trees). Instantiated on the chess game (materialGame with a real 128-slot table, a concrete root, the tree evaluated "
+               "in the kernel) for every theorem; chess_rootFreeOn gives RootFreeOn structurally (plies strictly increase below the root). Tie: iterative deepening + repeated + successive-position searches with tables 32 B - 1 MB, impl vs model "
                "exact (the model threads the same table), impl vs exhaustive reference; deep sequences against a harness-side exhaustive negamax.",
-    level_note="Trusted: Lean kernel; Model.TT/Model.Search tied exactly; hash collisions on the 64-bit key are outside the property and are the hypothesis HashOK.",
+    level_note="Trusted: Lean kernel; Model.TT/Model.Search tied exactly; hash collisions on the 64-bit key and history-dependent values inside the region are outside the property and are the hypothesis HashOKOn.",
     technique="Lean 4 proof (table invariant threaded through the alpha-beta node contract; list induction over search sequences) + differential search sequences",
-    rule="no-repeat histories x iterative deepening + repeat + 2 successive game positions x 5 table sizes x 2 seeds; deep tt-sequence oracle (d=4-6, two PV moves, shallower searches); non-trivial = distinct script",
-    partial=[],
+    rule="no-repeat histories x iterative deepening + repeat + 2 successive game positions + take-back sequences x 5 table sizes x 2 seeds; deep tt-sequence oracle (d=4-6, two PV moves, shallower searches); non-trivial = distinct script",
+    partial=["HashOKOn is a hypothesis (it is the property's 'position-determined evaluations, no repetition or fifty-move draw inside the tree, barring collisions'): decided per tree, not derived from the chess model in general",
+             "board-dependent explorations (TUROCHAMP, BERNSTEIN) not covered by the theorems"],
     modelled=SEARCH_MODELLED,
 )
 
@@ -317,7 +324,7 @@ PROPS["C12"] = dict(
     timeout=dict(quick=900, thorough=6000),
     level_text="Lean theorems (for EVERY cancellation poll index k): the search reports halted exactly when its last poll saw the cancellation (reports_halted is the definition of "
                "the final poll; the substance is reports_halted_at, halted_before_start), cancellation is monotone (cancelled_stays), a halted search leaves the table sound whatever k was (leaves_nothing: every "
-               "store is guarded by a poll that said 'not cancelled'), and the next search with the same table returns the true value - the same score as if the halted search had "
+               "store is guarded by a poll that said 'not cancelled'), and - under the region hypotheses of C11, instantiated on the chess game - the next search with the same table returns the true value - the same score as if the halted search had "
                "never run (next_search_exact: the SCORE; the PV may be cut elsewhere). Board hand-back: by the stream (see C03). The polls of Minimax have no theorem. Tie: cancellation forced at the k-th poll of the search context (a context whose Done() is the poll: "
                "no hook), k = 1,2,3, last-1, last, last+1, random (thorough: every k), incl. roots where a draw can be claimed; impl vs model exact, following search vs reference.",
     level_note="Trusted: Lean kernel; Model.Search poll placement tied by exact agreement on halted/not-halted for every k tried. PV equality of the follow-up search is not claimed (table hits may cut the PV at different places); its score is.",
